@@ -383,28 +383,38 @@ func c09Maps(r *core.Run) {
 				if fn == rec || len(vs.args) < 3 {
 					continue
 				}
-				if core.LoopHeaderOf(ci.Block()) == nil {
+				if core.LoopHeaderOf(ci.Block()) == nil && !afterLoopHeader(ci.Block()) {
 					continue
 				}
 				// subject: the greedy candidate loops (candidates come out of a bucket map); the
 				// LCS alignment pairs each instruction at most once by construction
 				bucketed := false
-				core.InstrsOf(fn, func(in ssa.Instruction) {
-					if lk, ok := in.(*ssa.Lookup); ok {
-						if m, ok := lk.X.Type().Underlying().(*types.Map); ok {
-							if _, isSlice := m.Elem().Underlying().(*types.Slice); isSlice {
-								bucketed = true
+				hasBucket := func(g *ssa.Function) {
+					core.InstrsOf(g, func(in ssa.Instruction) {
+						if lk, ok := in.(*ssa.Lookup); ok {
+							if m, ok := lk.X.Type().Underlying().(*types.Map); ok {
+								if _, isSlice := m.Elem().Underlying().(*types.Slice); isSlice {
+									bucketed = true
+								}
 							}
 						}
+					})
+				}
+				hasBucket(fn)
+				// the candidate loop may have been moved into a helper of the function that fills the buckets
+				for _, site := range callersOf(p, fn) {
+					if site.Parent() != fn && p.IsProdFunc(site.Parent()) {
+						hasBucket(site.Parent())
 					}
-				})
+				}
 				if !bucketed {
 					continue
 				}
 				// only the candidate loops (two nested loops) are subject: require lookups on both maps
 				oldV, newV := vs.args[1], vs.args[2]
-				chk := func(field string, key ssa.Value) bool {
-					ok1, n1, _ := core.MustPass(fn, ci.Block(), core.BoolGuard(func(x ssa.Value) bool {
+				var chkAt func(g *ssa.Function, sink *ssa.BasicBlock, field string, key ssa.Value, d int) bool
+				chkAt = func(g *ssa.Function, sink *ssa.BasicBlock, field string, key ssa.Value, d int) bool {
+					ok1, n1, _ := core.MustPass(g, sink, core.BoolGuard(func(x ssa.Value) bool {
 						ex, ok := x.(*ssa.Extract)
 						if !ok || ex.Index != 1 {
 							return false
@@ -416,8 +426,34 @@ func c09Maps(r *core.Run) {
 						_, isF := core.FieldLoad(lk.X, field)
 						return isF
 					}, false))
-					return ok1 && n1 > 0
+					if ok1 && n1 > 0 {
+						return true
+					}
+					// the test stayed in the callers of a helper: the instruction is the helper's parameter, and every
+					// call passes an instruction it has tested
+					prm, isParam := key.(*ssa.Parameter)
+					if !isParam || d > 2 {
+						return false
+					}
+					idx := -1
+					for i, q := range g.Params {
+						if q == prm {
+							idx = i
+						}
+					}
+					sites := callersOf(p, g)
+					if idx < 0 || len(sites) == 0 {
+						return false
+					}
+					for _, site := range sites {
+						args := core.CallArgs(site.Common())
+						if site.Common().IsInvoke() || idx >= len(args) || !chkAt(site.Parent(), site.Block(), field, args[idx], d+1) {
+							return false
+						}
+					}
+					return true
 				}
+				chk := func(field string, key ssa.Value) bool { return chkAt(fn, ci.Block(), field, key, 0) }
 				n++
 				// the map keyed by the recorder's i-th parameter is consulted with the i-th argument
 				m1, m2 := zr.fwd, zr.rev
@@ -685,4 +721,17 @@ func outerLoopHeader(h *ssa.BasicBlock) *ssa.BasicBlock {
 		}
 	}
 	return nil
+}
+
+// afterLoopHeader: b is dominated by a loop header (it lies in a loop body or on an exit path taken from inside
+// the loop, such as `record(...); return` in a search loop).
+func afterLoopHeader(b *ssa.BasicBlock) bool {
+	for d := b; d != nil; d = d.Idom() {
+		for _, pr := range d.Preds {
+			if d.Dominates(pr) {
+				return true
+			}
+		}
+	}
+	return false
 }
